@@ -2,10 +2,8 @@
 # usage: tools_mutant.sh <patch.diff> <budget_s> <prop>...   — applies a seeded change to /repo, runs the checks, reverts.
 patch="$1"; budget="$2"; shift 2
 cd /repo || exit 2
-if ! git apply --check "$patch" 2>/dev/null; then
-  if ! git apply --3way --check "$patch" 2>/dev/null; then echo "PATCH DOES NOT APPLY: $patch"; exit 3; fi
-fi
-git apply "$patch" 2>/dev/null || git apply --3way "$patch"
+if ! git apply --check "$patch" 2>/dev/null; then echo "PATCH DOES NOT APPLY: $patch"; exit 3; fi
+git apply "$patch"
 for p in "$@"; do
   out=$(cd /verif && VERIF_BUDGET_S=$budget ./check "$p" 2>&1)
   code=$?
